@@ -122,20 +122,34 @@ def model_check_all(ctx):
             raise vlib.Broken("sensitivity instance %s (%s) is expected to violate RemoteWorkNeverLost, TLC says %s" % (cfg, what, r["kind"]))
         rep.note("RemoteQueue sensitivity: %s -> %s violated (expected)" % (what, r["violated"]))
     rep.exhaustive = True
-    # -- read/write operation designs
-    for mod, area_cfgs in (("EpollIoMC", [("EpollIoFixed.cfg", True), ("EpollIoAsIs.cfg", False)]),
-                           ("UringIoMC", [("UringIoFixed.cfg", True), ("UringIoAsIs.cfg", False)])):
-        if not os.path.exists(os.path.join(vlib.VERIF, "spec", "io", mod + ".tla")):
-            continue
-        for cfg, must in area_cfgs:
-            if not os.path.exists(os.path.join(vlib.VERIF, "spec", "io", cfg)):
-                continue
-            r = vlib.model_check(ctx, "io", mod, cfg=cfg, must_hold=must, timeout=1500)
-            if not must:
-                if r["kind"] in ("error", "timeout", "assert"):
-                    raise vlib.Broken("TLC %s on io/%s (%s):\n%s" % (r["kind"], mod, cfg, r["out"][-2000:]))
-                rep.note("%s (%s, transcription of the unchanged design): %s%s - design-level prediction; alarms come only "
-                         "from the real executions" % (mod, cfg, r["kind"], (" " + str(r["violated"])) if r["violated"] else ""))
+    # -- read/write operation design of io_epoll_context.  "Fixed" = the design with the three proposed repairs: every
+    #    invariant must hold.  Each single repair switched off must violate exactly the invariant it protects (sensitivity +
+    #    design-level prediction of the findings); "AsIs" = transcription of the unchanged header (may violate: alarms come
+    #    only from the real executions).
+    vlib.model_check(ctx, "io", "EpollIoMC", cfg="EpollIoFixed.cfg", timeout=1500)
+    vlib.model_check(ctx, "io", "EpollIoMC", cfg="EpollIoFixedLive.cfg", timeout=1500)
+    if not quick:
+        vlib.model_check(ctx, "io", "EpollIoMC", cfg="EpollIoFixedW.cfg", timeout=1500)
+    for cfg, inv, what in (("EpollIoAsIsA.cfg", "NoStaleKernelReference", "EPOLL_CTL_ADD after the stop callback was constructed"),
+                           ("EpollIoAsIsE.cfg", "NoTouchAfterFree", "complete_with_done without destructing the stop callback"),
+                           ("EpollIoAsIsB.cfg", "ErrorIsOsError", "readv/writev result compared with -errno values")):
+        r = vlib.model_check(ctx, "io", "EpollIoMC", cfg=cfg, must_hold=False, timeout=900)
+        if r["kind"] != "invariant" or r["violated"] != inv:
+            raise vlib.Broken("instance %s (%s) is expected to violate %s, TLC says %s %s" % (cfg, what, inv, r["kind"], r["violated"]))
+        rep.note("EpollIo: %s -> %s violated (design-level prediction)" % (what, inv))
+    r = vlib.model_check(ctx, "io", "EpollIoMC", cfg="EpollIoAsIs.cfg", must_hold=False, timeout=900)
+    if r["kind"] in ("error", "timeout", "assert"):
+        raise vlib.Broken("TLC %s on io/EpollIoMC (EpollIoAsIs.cfg):\n%s" % (r["kind"], r["out"][-2000:]))
+    rep.note("EpollIo transcription of the unchanged header: %s %s (alarms come only from the real executions)" % (r["kind"], r["violated"] or ""))
+    if os.path.exists(os.path.join(vlib.VERIF, "spec", "io", "UringIoMC.tla")):
+        vlib.model_check(ctx, "io", "UringIoMC", cfg="UringIoFixed.cfg", timeout=1500)
+        vlib.model_check(ctx, "io", "UringIoMC", cfg="UringIoFixedLive.cfg", timeout=1500)
+        for cfg, inv, what in (("UringIoAsIsC.cfg", "CancelReachesIo", "stop callback constructed before the I/O SQE is queued"),
+                               ("UringIoAsIsD.cfg", "BytesAreTrue", "stop_requested() tested before the CQE result")):
+            r = vlib.model_check(ctx, "io", "UringIoMC", cfg=cfg, must_hold=False, timeout=900)
+            if r["kind"] not in ("invariant", "liveness") or (r["kind"] == "invariant" and r["violated"] != inv):
+                raise vlib.Broken("instance %s (%s) is expected to violate %s, TLC says %s %s" % (cfg, what, inv, r["kind"], r["violated"]))
+            rep.note("UringIo: %s -> %s violated (design-level prediction)" % (what, inv))
 
 
 # ----------------------------------------------------------------------------- validation
@@ -187,7 +201,7 @@ def run_slice(ctx, exe, units, idx, tag):
     up = os.path.join(ctx.work, "units_%s_%d.json" % (tag, idx))
     json.dump(units, open(up, "w"))
     lp = os.path.join(ctx.work, "log_%s_%d.ndjson" % (tag, idx))
-    sums, deaths = vlib.run_batches(ctx, exe, ["--units", up], len(units), lp, timeout=1700)
+    sums, deaths = vlib.run_batches(ctx, exe, ["--units", up], len(units), lp, timeout=1700, max_deaths=40)
     return lp, sums, deaths
 
 
@@ -198,24 +212,30 @@ def run(ctx):
                "schedule point); exhaustive interleavings come from the TLA+ models (sequentially consistent, <= 3 producers)")
     rep.assume("at most one outstanding read and one outstanding write per descriptor; progress deadline 3 s of real time")
     t0 = time.time()
-    model_check_all(ctx)
+    if os.environ.get("VERIF_IO_SKIP_MC"):
+        rep.note("model checking skipped (VERIF_IO_SKIP_MC: development aid)")
+    else:
+        model_check_all(ctx)
     rep.note("model checking %.1fs" % (time.time() - t0))
     # ---- build + run
     t0 = time.time()
     exe = vlib.build(ctx, "io_driver", ["engines/io/driver.cpp"],
                      lib=["inplace_stop_token.cpp", "async_stack.cpp", "exception.cpp"] + vlib.LIB_LINUX, incs=[os.path.join(vlib.VERIF, "engines", "io")])
     units = gen_units(ctx)
+    if os.environ.get("VERIF_IO_ONLY"):          # development aid: restrict the scenarios
+        units = [u for u in units if re.search(os.environ["VERIF_IO_ONLY"], u["name"])]
     nslice = max(1, min(4, vlib.NCPU))
     slices = [units[i::nslice] for i in range(nslice)]
     with concurrent.futures.ThreadPoolExecutor(nslice) as ex:
         results = list(ex.map(lambda a: run_slice(ctx, exe, a[1], a[0], "u"), enumerate(slices)))
-    execs, hits, sites = 0, 0, {}
+    execs, hits, sites, ndeaths = 0, 0, {}, 0
     for idx, (lp, sums, deaths) in enumerate(results):
         for s in sums:
             execs += s["execs"]
             hits += s.get("hook_hits", 0)
             for k, v in s.get("sites", {}).items():
                 sites[k] = sites.get(k, 0) + v
+        ndeaths += len(deaths)
         for d in deaths:
             u = slices[idx][d["x"]] if d["x"] < len(slices[idx]) else {}
             stuck = re.search(r"STUCK-FATAL scenario=(\S+) what=(\S+)", d.get("stderr_tail", "") or "")
@@ -224,8 +244,7 @@ def run(ctx):
             rep.violation(dict(engine=ENGINE, event=d["event"], scenario=u.get("name"), context=u.get("ctx"), seed=u.get("seed"),
                                asan=d.get("asan"), frame=d.get("frame"), where=d.get("where"), stuck=(stuck.group(2) if stuck else None),
                                what=what, unit=u, detail=d.get("stderr_tail", "")))
-    rep.evaluations += execs
-    rep.note("real code: %d executions (%d units), %d schedule-point hits over %d sites, %.1fs" % (execs, len(units), hits, len(sites), time.time() - t0))
+    rep.note("real code: %d units, %d ended by a fatal event, %d schedule-point hits over %d sites, %.1fs" % (len(units), ndeaths, hits, len(sites), time.time() - t0))
     if hits == 0:
         rep.note("no io.<site> schedule point was reached: hooks are not applied to this tree (perturbation inactive)")
     # ---- validation
@@ -246,6 +265,7 @@ def run(ctx):
                 gx += 1
     rejected = validate_total(ctx, allp)
     n = gx
+    rep.evaluations += gx + ndeaths
     rep.traces += n
     for rj in rejected:
         evs = rj["events"]
@@ -255,7 +275,9 @@ def run(ctx):
         got = ""
         if at.get("e") == "IoDone":
             got = "%s %s" % (("value", "error", "done")[at.get("k", 0)], at.get("n"))
+        prior_done = any(e.get("e") == "IoDone" and e.get("k") == 2 for e in evs[:pre])
         rep.violation(dict(engine=ENGINE, event="MonitorReject", scenario=scn, seed=seed, rejected_at=at.get("e"), got=got,
+                           prior_done=prior_done, ok=at.get("ok"),
                            what="IoMon rejects an execution of scenario %s at event %s %s (matched %s of %s events)"
                                 % (scn, at.get("e"), json.dumps(at), pre, len(evs)), events=evs[:200]))
     rep.note("validation: %d executions, %.1fs" % (n, time.time() - t0))
